@@ -361,10 +361,12 @@ func (f *fileDecorator) link() {
 				if frag.Empty {
 					spaceType = dst.EmptyLine
 				}
-				if foundBefore {
+				// (three line breaks in a row are an empty-line fragment followed by a new-line
+				// fragment at the same place: the later, smaller one does not undo the empty line)
+				if foundBefore && f.before[nodeBefore] < spaceType {
 					f.before[nodeBefore] = spaceType
 				}
-				if foundAfter {
+				if foundAfter && f.after[nodeAfter] < spaceType {
 					f.after[nodeAfter] = spaceType
 				}
 				continue
